@@ -369,6 +369,12 @@ def X_exhaust(ctx, crate, rule, sources, key_prefix="", receivers=False, only_fn
             n += 1
             names = [s_[0] for s_ in steps]
             bad = [nm for nm in names if nm in flow.SHORT_CIRCUIT and nm != "next"]
+            # try_for_each / try_fold whose closure can never produce the breaking value are exhaustive
+            for s_ in steps:
+                if s_[0] in ("try_for_each", "try_fold") and s_[0] in bad:
+                    cl = [a for a in s_[1] if a[0] == "closure"]
+                    if cl and never_breaks(ctx, crate, cl[0][1]):
+                        bad.remove(s_[0])
             unknown = [nm for nm in names if nm not in flow.SHORT_CIRCUIT and nm not in flow.NON_SHORT_ADAPTORS and nm not in flow.EXHAUSTIVE_CONSUMERS]
             key = "%s%s:%s<-%s" % (key_prefix, b.qual, names[-1], flow.last(src[2]) if src[0] == "call" else flow.show(src))
             if "next" in names:
@@ -411,6 +417,40 @@ def X_exhaust(ctx, crate, rule, sources, key_prefix="", receivers=False, only_fn
             key = "%s%s:for<-%s" % (key_prefix, b.qual, flow.last(src[2]) if src[0] == "call" else flow.show(src))
             ctx.ob(rule, key + ".exits", not other and not returns, where=b.where(t.get("loc")),
                    expected="the loop is left only when the source is exhausted", found="extra exits from blocks %s" % sorted(set(x[0] for x in other)))
+    return n
+
+
+def never_breaks(ctx, crate, closure_def):
+    cb = crate.body(closure_def)
+    if cb is None:
+        return False
+    try:
+        eng = ctx.engine([crate], max_paths=2000)
+        paths = eng.summarise(cb)
+    except (symx.Unsupported, symx.PathLimit):
+        return False
+    rets = [strip(p.ret) for p in paths if p.end == "return"]
+    return bool(rets) and all(r[0] == "adt" and r[2] in ("Ok", "Continue", "Some") for r in rets)
+
+
+def X_args(ctx, crate, rule, sources, only_fns=None, key_prefix=""):
+    """source results handed to another call as a (non-receiver) argument: only exhaustive sinks are allowed"""
+    n = 0
+    for b in crate.all_bodies:
+        if only_fns is not None and b.qual not in only_fns:
+            continue
+        calls, d = flow.all_call_exprs(b)
+        for (bb, t, ci, e) in calls:
+            if e[0] != "call":
+                continue
+            for i, a in enumerate(e[3]):
+                if i == 0:
+                    continue
+                if is_source_call(a, sources):
+                    n += 1
+                    nm = flow.last(e[2])
+                    ctx.ob(rule, "%s%s:%s(<-%s)" % (key_prefix, b.qual, nm, flow.last(a[2])), nm in ("append", "extend", "extend_from_slice"),
+                           where=b.where(t.get("loc")), expected="append/extend of the complete result", found=nm)
     return n
 
 
